@@ -61,6 +61,10 @@ class TColl(DataCollectionType[TData, list]):
                 raise TypeError("Data must be a list of TData objects")
 
 
+class TColl2(TColl):
+    """A second collection type (for identity mutations of a sweep's `collection`)."""
+
+
 # ---------------------------------------------------------------------------------------------
 # sources
 # ---------------------------------------------------------------------------------------------
